@@ -446,6 +446,43 @@ fn main() {
                 }
                 write!(o, "B {:08x}{:08x}", h1, h2).unwrap();
             }
+            "F" => {
+                // exhaustive range of raw values through the public scaling functions of
+                // messages::navigation; one digest of `count` token lines
+                let lo: i64 = f[2].parse().unwrap();
+                let count: i64 = f[3].parse().unwrap();
+                let (mut h1, mut h2): (u32, u32) = (2166136261, 0x9747b28c);
+                let mut t = String::with_capacity(64);
+                for raw in lo..lo + count {
+                    let v = match f[1] {
+                        "lon" => ais::messages::navigation::parse_longitude(raw as i32),
+                        "lat" => ais::messages::navigation::parse_latitude(raw as i32),
+                        "sog" => ais::messages::navigation::parse_speed_over_ground(raw as u16),
+                        "cog" => ais::messages::navigation::parse_cog(raw as u16),
+                        _ => panic!("bad F case"),
+                    };
+                    t.clear();
+                    optf(&v, &mut t);
+                    t.push('\n');
+                    for b in t.bytes() {
+                        h1 = (h1 ^ b as u32).wrapping_mul(16777619);
+                        h2 = (h2 ^ b as u32).wrapping_mul(709607);
+                    }
+                }
+                write!(o, "F {:08x}{:08x}", h1, h2).unwrap();
+            }
+            "f" => {
+                // one raw value through the same functions (expansion of an `F` range)
+                let raw: i64 = f[2].parse().unwrap();
+                let v = match f[1] {
+                    "lon" => ais::messages::navigation::parse_longitude(raw as i32),
+                    "lat" => ais::messages::navigation::parse_latitude(raw as i32),
+                    "sog" => ais::messages::navigation::parse_speed_over_ground(raw as u16),
+                    "cog" => ais::messages::navigation::parse_cog(raw as u16),
+                    _ => panic!("bad f case"),
+                };
+                optf(&v, &mut o);
+            }
             "" => continue,
             _ => panic!("bad case line"),
         }
